@@ -7,14 +7,18 @@ the numeric extremes of int64 (skip + limit at and beyond MaxInt64 with a finite
 store of a parent / child / grandchild chain (plain and extended) over a mixed population; and as
 programs over ONE compiled query object (executed repeatedly through QueryIdsC / QueryWithCursorC /
 IterateIds / the objectz twin, with the caller's SetSkip / SetLimit / AdoptSortFields / SetPredicate
-in between): models Query/ChildScan.v."""
+in between): models Query/ChildScan.v; and QueryWithCursorC over every cursor provider of the library
+(IteratorMatchingAnyOf / AllOf over a set index, index value cursors, related-entity cursors, caller-built tree sets,
+union and filtered cursors) in both directions and under non-id sorts, against the specification over the
+provider's candidate SET: model Query/Provider.v."""
 import json
 import os
 
 import vlib
 
 PID = "C02"
-FILES = ["theories/Properties/C02.v", "theories/Examples/C02Examples.v", "theories/Examples/C02ChildRerun.v"]
+FILES = ["theories/Properties/C02.v", "theories/Examples/C02Examples.v", "theories/Examples/C02ChildRerun.v",
+         "theories/Examples/C02Provider.v"]
 
 
 def fields(line):
@@ -53,6 +57,8 @@ def classify(q, got, want, legacy, what):
     wc, wi = split_res(want)
     if gi is None:
         return "C02:%s-%s" % (what, gc.lower())
+    if what.endswith("provider-query") and len(set(gi)) != len(gi):
+        return "C02:%s-duplicates" % what
     if gc != wc:
         return "C02:%s-count" % what
     skip = None if q["skip"] == "-" else int(q["skip"])
@@ -152,12 +158,14 @@ def drop_row(ctx, qline, k):
             rows = [f[3 + i * (nc + 1): 3 + (i + 1) * (nc + 1)] for i in range(n)]
             del rows[k]
             line = " ".join(["D", str(n - 1), str(nc)] + [t for r in rows for t in r])
-        elif f[0] == "L":
+        elif f[0] in ("L", "G"):
             f[1] = drop_bit(f[1], k)
             line = " ".join(f)
         out.append(line)
     qf = qline.split()
     qf[1] = drop_bit(qf[1], k)
+    if qf[0] == "P":
+        qf[-2] = drop_bit(qf[-2], k)      # how often the provider's sources name the row
     if qf[0] == "R":
         _, ops = parse_program(" ".join(qf))
         for op in ops:
@@ -236,7 +244,7 @@ def shrink(runner, ctx, qline, part, keep_key=None, child=False):
         if keep_key and part != "iter":
             fi, fm = fields(impl[-1]), fields(modl[-1])
             got = fi["query" if part == "query" else "wc"]
-            name = ("child-" if child else "") + ("query" if part == "query" else "cursor-query")
+            name = ("child-" if child else "") + ("provider-query" if q2.startswith("P ") else "query" if part == "query" else "cursor-query")
             return classify(parse_query(q2), got, fm["spec"], fm["legacy"], name) == keep_key
         return True
     changed = True
@@ -271,15 +279,19 @@ def main(argv):
     c = vlib.Check(PID, argv)
     c.cov["trusted_base"] = [
         "Coq 8.16.1 kernel (coqc; coqchk in the thorough tier); vm_compute in Examples only; no axioms",
+        "Query/Provider.v: a cursor provider handed to QueryWithCursorC is a SET cursor over its candidate ids (each id once, in the "
+        "direction asked for) - the cursor contract itself is property C14's",
         "hand-written models Query/Compare.v, Paging.v, ScanUnique.v, ScanSort.v, ChildScan.v of boltz query_sort.go / query_scanners.go / store_query.go "
         "(ChildScan.v: the child-store test of every scan loop; a compiled ast.Query as (predicate, sort fields, skip, limit) and setPaging's write-back)",
         "llrb.Tree modelled as an ordered list (Insert replaces on equal, DeleteMax, in-order Do); bbolt cursor = ids in byte order",
         "extraction (ExtrOcamlBasic only) + extraction/c02_driver.ml + drv_common.ml",
-        "Go harness cmd/storageharness/c02.go + c02child.go (generators, match bits of the catalogue filters, query printer, the bolt layout of a "
+        "Go harness cmd/storageharness/c02.go + c02child.go + c02prov.go (generators, which rows a cursor provider names, match bits of the catalogue filters, query printer, the bolt layout of a "
         "root / child / grandchild store chain, interpreter of programs over one compiled query) and this comparison",
         "filter evaluation itself (property C01) - C02 uses a catalogue of seven simple filters whose answer the harness computes itself",
     ]
     c.assumptions = [
+        "every candidate id a cursor provider names is an entity of the root store (the set index / the hub lists are maintained "
+        "through Store.Create; dangling references are not part of the check)",
         "stored field type = declared symbol type (int32 also for int64 symbols); ids are unique bucket keys",
         "no NaN float sort keys for the ordering theorems (NaN datasets are a separate stream checked only for count and page size)",
         "fewer than 2^63 rows",
@@ -309,8 +321,10 @@ def main(argv):
         ctx = []
         for case, i, m in zip(lines, impl, modl):
             vlib.log("REPLAY case=%s\n  impl =%s\n  model=%s" % (case, i, m))
-            if case.startswith(("D", "L", "V")):
+            if case.startswith(("D", "L", "V", "G")):
                 ctx = [case] if case.startswith("D") else ctx + [case]
+            elif case.startswith("P"):
+                bad += 1 if wrong(i, m, "wc") else 0
             elif case.startswith(("Q", "X")) and (wrong(i, m, "query") or wrong(i, m, "wc") or wrong(i, m, "iter")):
                 bad += 1
             elif case.startswith("R"):
@@ -395,7 +409,32 @@ def main(argv):
         if case.startswith("V"):
             ctx = [l for l in ctx if not l.startswith("V")] + [case]
             continue
+        if case.startswith("G"):
+            ctx = [ctx[0], case]
+            continue
         nqueries += 1
+        if case.startswith("P"):
+            # QueryWithCursorC over a cursor provider: the provider denotes the SET of candidate ids
+            nexec += 1
+            q = parse_query(case)
+            fi, fm = fields(i), fields(m)
+            mult, prov = case.split()[-2:]
+            if sum(1 for b, k in zip(q["bits"], mult) if b == "1" and k != "0") >= 2:
+                distinct.add((dindex, "provider", case))
+            if fm["query"] != fm["spec"] or fm["sorting"] != fm["spec"] or fm["setonly"] != "1":
+                disagreements.append(("\n".join(ctx), case, i, m, "extracted model differs from extracted specification (cursor provider)"))
+            if fi["wc"] != fm["spec"]:
+                k = classify(q, fi["wc"], fm["spec"], fm["legacy"], "provider-query")
+                gc, gi = split_res(fi["wc"])
+                wc, wi = split_res(fm["spec"])
+                extra = ""
+                if gi is not None and len(set(gi)) != len(gi):
+                    extra = " (an id is returned more than once)"
+                elif gi is not None and gc != wc:
+                    extra = " (the count is not the number of distinct matching candidates)"
+                report(k, "wc", case, i, m, "QueryWithCursorC over the cursor provider %s returned %s, specification over the "
+                       "provider's candidate set %s%s" % (prov, fi["wc"], fm["spec"], extra), keep_key=k)
+            continue
         vname, child = view_name(ctx)
         pre = "child-" if child else ""
         if case.startswith("R"):
@@ -467,7 +506,14 @@ def main(argv):
                      "objectz QueryEntitiesC x one specification per scan strategy x 9 pages, + random programs of 4..9 operations with "
                      "SetSkip / SetLimit / AdoptSortFields / SetPredicate and unrelated queries in between; every execution is compared with the "
                      "specification of the query as the mutators left it, and the query object must keep asking for the same page "
-                     "(stats: program_*). Non-trivial: at least two matching rows and a sort, skip or limit clause (programs: at least two "
+                     "(stats: program_*). Cursor providers: 3 (thorough 16) datasets whose rows carry 0..4 tag values (created through "
+                     "Store.Create: the set index is the library's; a hubs store lists the carriers of every tag); QueryWithCursorC over 40 "
+                     "providers - entities bucket, IteratorMatchingAnyOf / AllOf with 0,1,2,3 values (a value twice, a value nobody carries), "
+                     "index value cursor, GetRelatedEntitiesCursor, caller-built ast.TreeSet (unordered insertion, repetitions), "
+                     "NewUnionSetCursor (2, 3 sides, tree + value), NewFilteredCursor (over a value cursor / an AnyOf cursor) - x default order, "
+                     "id asc, id desc, id desc + key, a typed key in both directions, key + id desc, random x 16 pages around the number of "
+                     "candidates; oracle: the specification over the candidate SET (stats: provider_x_strategy, "
+                     "provider_names_a_row_more_than_once, provider_candidates). Non-trivial: at least two matching rows and a sort, skip or limit clause (programs: at least two "
                      "executions); distinct by (dataset, store, case text)")
     c.cov["samples"] = samples
     c.cov["violation_classes"] = reported
@@ -480,7 +526,8 @@ def main(argv):
         d, case, i, m, why = disagreements[0]
         c.violation("C02:correspondence", "%s on %d cases, e.g. %s: impl %s model %s" % (why, len(disagreements), case, i, m),
                     dict(correspondence="Query/ScanUnique.v + ScanSort.v + ChildScan.v vs boltz scanners",
-                         theorems=["query_ids_exact", "iterate_paged_exact", "child_store_query_exact", "compiled_query_rerun_exact"],
+                         theorems=["query_ids_exact", "iterate_paged_exact", "child_store_query_exact", "compiled_query_rerun_exact",
+                                   "provider_query_exact", "provider_answer_depends_on_candidate_set_only"],
                          case=d + "\n" + case, impl=i, model=m),
                     no_input=True)
     if not proof_ok:
